@@ -541,6 +541,10 @@ pub fn exec_special(ctx: &mut Ctx, ex: &mut Extra, hist: &mut Vec<String>, toks:
                 scores.push("-".to_string());
             }
             let mv: Vec<String> = moves.iter().zip(clocks.iter()).zip(scores.iter()).map(|((m, c), sc)| format!("{}/{}/{}", m, c, sc)).collect();
+            // a changed output format is not a property failure: nothing recognisable -> not compared
+            if moves.is_empty() && !end.starts_with("error") && end != "PANIC" && !out.contains("Last move") {
+                return Some("watch unparsed".to_string());
+            }
             let mut s = format!("watch {} {}", end, mv.join(" "));
             if end.starts_with("error") || end == "PANIC" {
                 s.push_str(&format!("\n! C15 the watch loop (depth {}) ended with {} after {} moves", d, end, moves.len()));
@@ -638,7 +642,12 @@ pub fn exec_special(ctx: &mut Ctx, ex: &mut Extra, hist: &mut Vec<String>, toks:
                     end = "crashed".to_string();
                 }
             }
-            format!("pvp {} {}", end, boards.join(" "))
+            if boards.is_empty() || boards.iter().all(|b| b == "unparsed") {
+                // a changed output format is not a property failure: nothing recognisable -> not compared
+                "pvp unparsed".to_string()
+            } else {
+                format!("pvp {} {}", end, boards.join(" "))
+            }
         }
         "book" => {
             // book <from><to> ... : continuations offered after this line, sorted
